@@ -248,6 +248,28 @@ class Prop(PropBase):
             for op in ("cz", "cb", "cc", "cl", "cs", "ts"):
                 cs.append(Case("P %s 0 %s" % (op, h), sweep="string-ctors-nul"))
             cs.append(Case("P ca 0 %s 0 1 0 0 0 4 0 0 1 4 7 5" % h, sweep="string-ctors-nul"))
+        # strings written on a terminal of DECLARED size with a KNOWN cursor, ending exactly in / running past the last column:
+        # trailing blanks (plain and attributed), wide (CJK, Hangul, fullwidth) glyphs at the margin - the text on the wire is
+        # still exactly to_string, whatever shortcut the right margin invites
+        k_ = 0
+        for w_ in (6, 10, 20):
+            for blanks in (0, 1, 3, 4, 5, 8):
+                for start in (0, 2):
+                    for tail in ("plain", "attributed", "wide", "wide-first"):
+                        n_text = w_ - start - blanks
+                        if n_text < 1:
+                            continue
+                        els = [[5, 97 + j % 26, 0, 0] + list(tg.DEFAULT_ATTR) for j in range(n_text)]
+                        blank_attr = list(tg.DEFAULT_ATTR) if tail != "attributed" else [0, 9, 0, 0, 0, 4, 0, 0, 22, 24, 27, 25]
+                        els += [[5, 32, 0, 0] + blank_attr for _ in range(blanks)]
+                        if tail == "wide":
+                            els[-1] = [18] + tg.utf8_bytes(rng.choice([0x65E5, 0x3042, 0xAC00, 0xFF21])) + list(tg.DEFAULT_ATTR)
+                        if tail == "wide-first":
+                            els = [[18] + tg.utf8_bytes(0x65E5) + list(tg.DEFAULT_ATTR)] + els
+                        for extra in (0, 1):
+                            line = "T %d ; sz %d 4 ; mv %d 1 ; %s" % (rng.choice([0, 16]), w_, start + extra * (w_ - start - 1 if tail == "wide-first" else 0), tg.op_ws(els))
+                            cs.append(Case(line, sweep="strings-at-the-right-margin", cfgs=["%d 1 %d 0 %d 4" % (k_ % 3, k_ % 6, w_)]))
+                            k_ += 1
         for _ in range(2500 if tier == "quick" else 60000):
             cs.append(Case(string_program(rng), tag="string-programs"))
         cs += compare_route_cases(rng, 400 if tier == "quick" else 8000)
